@@ -7,7 +7,6 @@ package main
 // agree with the specification and with each other.
 
 import (
-	"context"
 	"encoding/json"
 	"fmt"
 	"runtime"
@@ -110,7 +109,6 @@ func freshCompare(c *Check, row *Row, src string, fns []FnSpec, opt bool, mode s
 
 type progOpts struct {
 	freshCompare bool            // C07: also compare every run with a fresh evaluator holding the same variables
-	deadline     time.Duration   // per evaluator
 	stepBudget   int64           // > 0: runs are cut off (context cancelled) after this many instructions; the context is re-armed for the next run
 	collector    *traceCollector // when set, a sample of the rows is also recorded instruction by instruction for Trace_VM
 }
@@ -119,6 +117,7 @@ type progOpts struct {
 type traceCollector struct {
 	mu     sync.Mutex
 	every  int
+	max    int // stop recording once this many events are held (0: no limit); the number recorded is in the evidence
 	seen   int
 	progs  []*progDump
 	events []traceEvent
@@ -131,6 +130,9 @@ func (tc *traceCollector) want() bool {
 	tc.mu.Lock()
 	defer tc.mu.Unlock()
 	tc.seen++
+	if tc.max > 0 && len(tc.events) >= tc.max {
+		return false
+	}
 	return tc.every <= 1 || tc.seen%tc.every == 0
 }
 
@@ -245,8 +247,10 @@ func replayProgRow(c *Check, row *Row, po progOpts) {
 		}
 		return ""
 	}()})
-	if po.deadline == 0 {
-		po.deadline = 5 * time.Second
+	// no wall clock: a run that does not end is cut off after a number of instructions (counted by the step
+	// hook, which cancels the evaluator's context), so that the verdict does not depend on the load of the machine
+	if po.stepBudget == 0 {
+		po.stepBudget = 1000000
 	}
 	modes := [2]string{"opt", "noopt"}
 	var obs [2][]runObs
@@ -256,16 +260,9 @@ func replayProgRow(c *Check, row *Row, po progOpts) {
 			c.fail("row variable without object: " + string(row.Vars))
 			return
 		}
-		var ctx context.Context
 		cancel := func() {}
-		var rctx *resetCtx
-		if po.stepBudget > 0 {
-			rctx = newResetCtx()
-			ctx = rctx
-		} else {
-			ctx, cancel = context.WithTimeout(context.Background(), po.deadline)
-		}
-		m, err := newMachine(src, vars, fns, opt, ctx)
+		rctx := newResetCtx()
+		m, err := newMachine(src, vars, fns, opt, rctx)
 		if err != nil {
 			cancel()
 			c.disagree(&Disagreement{Kind: "prepare-failed", Script: src, Mode: modes[mi], Expected: "accepted", Got: err.Error(), Row: row.Raw})
@@ -273,23 +270,13 @@ func replayProgRow(c *Check, row *Row, po progOpts) {
 		}
 		var tr *tracer
 		var recorded [][]traceEvent
-		if po.collector != nil && rctx == nil && po.collector.want() {
-			// re-prepare with a re-armable context so that the run can be recorded
-			cancel()
-			rctx = newResetCtx()
-			vars2, _ := rowVars(row)
-			m, err = newMachine(src, vars2, fns, opt, rctx)
-			if err != nil {
-				return
-			}
+		if po.collector != nil && po.collector.want() {
 			tr = attachTracer(m)
 			defer detachTracer(m)
 		}
 		var si *stepInfo
-		if po.stepBudget > 0 || po.freshCompare {
-			si = m.countSteps(po.stepBudget)
-			defer m.release()
-		}
+		si = m.countSteps(po.stepBudget)
+		defer m.release()
 		skipping := false
 		for ri, step := range row.Runs {
 			if rctx != nil {
